@@ -6,6 +6,7 @@ Nothing in /repo is changed: torch.rand, torch.rand_like, torch.randperm and tor
 monkeypatched for the duration of a `with Seam(...)` block.  Any other draw from the global generator
 is detected by comparing torch.get_rng_state() before/after."""
 import math
+import numpy as np
 import torch
 
 _ORIG = {}
@@ -158,6 +159,15 @@ class Seam:
         z = math.sqrt(2.0) * torch.erfinv(2 * u - 1)
         return (mean.to(torch.float64) + std.to(torch.float64) * z).to(mean.dtype)
 
+    def np_random(self, size=None):
+        """stand-in for numpy.random.Generator.random as used by trimesh.sample (float64)"""
+        if size is None:
+            return float(self._uniform((1,), torch.float64)[0])
+        shape = (int(size),) if not isinstance(size, (tuple, list)) else tuple(int(s) for s in size)
+        # trimesh asks for (count, 2, 1): one net point per sample, its trailing axes are further coordinates
+        flat = (shape[0], int(np.prod(shape[1:]))) if len(shape) > 2 else shape
+        return self._uniform(flat, torch.float64).numpy().copy().reshape(shape)
+
     # ---- patching ------------------------------------------------------------------------
     def __enter__(self):
         assert not _ORIG, "seam already active"
@@ -166,11 +176,25 @@ class Seam:
         self._state = torch.get_rng_state()
         torch.rand, torch.rand_like, torch.randperm, torch.normal = (
             self.rand, self.rand_like, self.randperm, self.normal)
+        # trimesh's samplers (TrimeshPolyhedron) draw from a numpy generator obtained through this one function
+        try:
+            import trimesh.sample as ts
+            _ORIG["trimesh_rg"] = ts.random_generator
+            seam = self
+
+            class _Gen:
+                random = staticmethod(seam.np_random)
+            ts.random_generator = lambda seed=None: _Gen()
+        except Exception:          # trimesh not installed: nothing to own
+            pass
         return self
 
     def __exit__(self, *exc):
         torch.rand, torch.rand_like, torch.randperm, torch.normal = (
             _ORIG["rand"], _ORIG["rand_like"], _ORIG["randperm"], _ORIG["normal"])
+        if "trimesh_rg" in _ORIG:
+            import trimesh.sample as ts
+            ts.random_generator = _ORIG["trimesh_rg"]
         _ORIG.clear()
         self.leaked = not torch.equal(self._state, torch.get_rng_state())
         return False
